@@ -13,6 +13,7 @@ import tempfile
 import warnings
 
 from ..ctx import Workload
+from ..oracles import ts as tsor
 from ..gen.objects import ObjGen
 from ..oracles import validator
 from ..spec import model as M
@@ -267,6 +268,61 @@ def entry_points(d, v, tmp):
         r = [x for x in stix2.FileSystemSource(root).query([Filter("id", "=", sid)], version=v)]
         return r[0] if r else None
 
+    import collections
+    other = {"2.0": "2.1", "2.1": "2.0", None: "2.0"}[v]
+
+    def mem_add_ordered():
+        s = stix2.MemoryStore()
+        s.add(collections.OrderedDict(d), version=v)
+        return s.get(sid)
+
+    def mem_add_ordered_bundle():
+        s = stix2.MemoryStore()
+        s.add(collections.OrderedDict(BUN, objects=[collections.OrderedDict(d)]), version=v)
+        return s.get(sid)
+
+    def fs_add_ordered():
+        root = fs_dir()
+        stix2.FileSystemSink(root, allow_custom=True).add(collections.OrderedDict(d), version=v)
+        files = [os.path.join(dp, f) for dp, _, fs in os.walk(root) for f in fs]
+        with open(files[0], encoding="utf-8") as f:
+            return ("written", json.load(f))
+
+    def fs_add_ordered_bundle():
+        root = fs_dir()
+        stix2.FileSystemSink(root, allow_custom=True).add(collections.OrderedDict(BUN, objects=[dict(d)]), version=v)
+        files = [os.path.join(dp, f) for dp, _, fs in os.walk(root) for f in fs]
+        with open(files[0], encoding="utf-8") as f:
+            return ("written", json.load(f))
+
+    def after_other(read):
+        # history: the same content was first added with the other version named (if that was accepted at all); the operation
+        # which names v comes last, and what the store answers afterwards is its reading
+        def run():
+            s = stix2.MemoryStore()
+            try:
+                s.add(dict(d), version=other)
+            except Exception:
+                pass
+            s.add(dict(d), version=v)
+            if read == "get":
+                return s.get(sid)
+            r = s.all_versions(sid) if read == "all_versions" else s.query([Filter("id", "=", sid)])
+            if len(r) > 1:
+                raise AssertionError("one version added twice is held %d times" % len(r))
+            return r[0] if r else None
+        return run
+
+    us = tsor.text_us(d["modified"]) if isinstance(d.get("modified"), str) else None
+    if v is not None and us is not None and us % 1000 == 0:
+        # (only where both readings keep the same modified time: a 2.0 reading cuts microseconds off, which makes another version)
+        eps += [("MemoryStore.add(d, other version) then add(d, version): get", after_other("get"), "class"),
+                ("MemoryStore.add(d, other version) then add(d, version): all_versions", after_other("all_versions"), "class"),
+                ("MemoryStore.add(d, other version) then add(d, version): query", after_other("query"), "class")]
+    eps += [("MemoryStore.add(OrderedDict, version)", mem_add_ordered, "class"), ("FileSystemSink.add(OrderedDict, version)", fs_add_ordered, "written")]
+    if d.get("type") != "bundle":
+        eps += [("MemoryStore.add(OrderedDict bundle, version)", mem_add_ordered_bundle, "class"),
+                ("FileSystemSink.add(OrderedDict bundle, version)", fs_add_ordered_bundle, "written")]
     eps += [("MemoryStore(stix_data=[d], version)", mem_store_ctor, "class"), ("MemorySource(stix_data=[d], version)", mem_source_ctor, "class"),
             ("MemorySink(stix_data=[d], version)", mem_sink_ctor, "accept"), ("MemoryStore.add(d, version)", mem_store_add, "class"),
             ("MemoryStore.add([d], version)", mem_store_add_list, "class"), ("MemorySink.add(d, version)", mem_sink_add, "accept"),
